@@ -154,3 +154,5 @@ def run(ctx, tier: str, seed: int) -> None:
                 bound=f"{n} seeded random trees (1-2 root groups, <= {depth} nested group levels, <= 2 children of "
                       f"each kind, pools <= 3 entries), expressions from a pool of {len(G.POOL_C14)}, {len(cers)} "
                       f"content evaluation results, both flags, all four entry points")
+    from bounded import valhist
+    valhist.run_histories(ctx, tier, seed + 14, list(pool), entry_pool, cers)
